@@ -74,6 +74,7 @@ type mutant struct {
 	Negative bool     `json:"negative"` // behaviour-preserving edit: must stay silent
 	Props    []string `json:"properties"`
 	Why      string   `json:"why"`
+	Patch    string   `json:"-"` // unified diff (the independently seeded changes under /verif/seeded)
 }
 
 type medit struct {
@@ -98,10 +99,76 @@ func loadMutants() []mutant {
 		}
 		out = append(out, ms...)
 	}
+	// the independently seeded breaking changes (written by people who never saw the checker), as patches
+	metas, _ := filepath.Glob("/verif/seeded/*/meta.json")
+	sort.Strings(metas)
+	for _, mf := range metas {
+		b, err := os.ReadFile(mf)
+		if err != nil {
+			continue
+		}
+		var meta struct {
+			Property string `json:"property"`
+			Status   string `json:"status"`
+		}
+		if json.Unmarshal(b, &meta) != nil || meta.Status != "confirmed" {
+			continue
+		}
+		dir := filepath.Dir(mf)
+		pf := filepath.Join(dir, "patch.diff")
+		if _, err := os.Stat(pf); err != nil {
+			continue
+		}
+		out = append(out, mutant{ID: "seed-" + filepath.Base(dir), Property: meta.Property, Rule: meta.Property, Patch: pf, Why: "independently seeded change"})
+	}
 	return out
 }
 
+// patchOverlay applies a unified diff to copies of the files it names (never to the tree) and returns the result.
+func patchOverlay(patch string) (map[string][]byte, bool) {
+	b, err := os.ReadFile(patch)
+	if err != nil {
+		return nil, false
+	}
+	var rels []string
+	for _, l := range strings.Split(string(b), "\n") {
+		if strings.HasPrefix(l, "+++ b/") {
+			rels = append(rels, strings.TrimSpace(strings.TrimPrefix(l, "+++ b/")))
+		}
+	}
+	tmp, err := os.MkdirTemp("", "mbpatch-")
+	if err != nil {
+		return nil, false
+	}
+	defer os.RemoveAll(tmp)
+	for _, rel := range rels {
+		src, err := os.ReadFile(filepath.Join(repoDir(), rel))
+		_ = os.MkdirAll(filepath.Dir(filepath.Join(tmp, rel)), 0o755)
+		if err == nil {
+			_ = os.WriteFile(filepath.Join(tmp, rel), src, 0o644)
+		}
+	}
+	cmd := exec.Command("git", "apply", "-p1", patch)
+	cmd.Dir = tmp
+	cmd.Env = append(os.Environ(), "GIT_DIR=/nonexistent", "GIT_CEILING_DIRECTORIES="+filepath.Dir(tmp))
+	if err := cmd.Run(); err != nil {
+		return nil, false
+	}
+	ov := map[string][]byte{}
+	for _, rel := range rels {
+		nb, err := os.ReadFile(filepath.Join(tmp, rel))
+		if err != nil {
+			return nil, false
+		}
+		ov[filepath.Join(repoDir(), rel)] = nb
+	}
+	return ov, len(ov) > 0
+}
+
 func (m mutant) overlay() (map[string][]byte, bool) {
+	if m.Patch != "" {
+		return patchOverlay(m.Patch)
+	}
 	ov := map[string][]byte{}
 	edits := append([]medit{{m.File, m.Old, m.New}}, m.Edits...)
 	for _, e := range edits {
